@@ -1,7 +1,7 @@
 // C02: the symbolically perturbed predicate cascade of the 3D Boolean
 // (shared.h Shadows/Interpolate/Intersect, boolean3.cpp Shadow01/Kernel02/...).
 #include "vf_harness.h"
-#include "/repo/src/boolean3.cpp"
+#include "boolean3.cpp"
 using namespace manifold;
 #ifndef VF_BND
 #define VF_BND 1e100
